@@ -2,10 +2,10 @@ package ai
 
 import (
 	"fmt"
-	"os"
 	"go/token"
 	"go/types"
 	"math"
+	"os"
 	"strings"
 
 	"golang.org/x/tools/go/ssa"
